@@ -41,11 +41,12 @@ ENTRY = {'coq_dir': 'C10',
                   'dial_address, the QUIC routing, quic::listener::get_socket_address and NegotiationError::Quic(_) are modelled and covered by the '
                   'theorems but not exercised against the code',
                   'tools/gen_c10_errors.py (regex level) reads the variants of DialError and of the enums nested in it from src/error.rs and the '
-                  'arms of the match in AddressStore::error_score + the constants of mod scores from address.rs into coq/gen/DialErrors.v; the model '
-                  'interprets the arm table, C10_error_variants_in_sync ties constructor names/order/feature gates to the source, the harness '
-                  'classifies DialError values with exhaustive wildcard-free matches (a new variant stops the build) - the hand-written index of '
-                  'each variant in that harness table is trusted to follow the order of the enum (a wrong index would show as a score difference '
-                  'only when the arms distinguish the variants concerned)',
+                  'arms of the match in AddressStore::error_score + the constants of mod scores from address.rs into coq/gen/DialErrors.v (and the '
+                  'names into harness/src/gen_c10_errors.rs); the model interprets the arm table, C10_error_variants_in_sync ties constructor '
+                  'names/order/feature gates to the source, the harness classifies DialError values with exhaustive wildcard-free matches (a new '
+                  'variant stops the build) and checks at start-up that the value it builds for every index path has, by its Debug name, the variant '
+                  'name the source has at that path and that every compiled-in variant has a constructor; an arm the translator cannot read (guard, '
+                  'binding, nested alternative, block body) is reported as a broken tie',
                   'dial(peer) and dial_address are driven end to end on the in-crate scripted transports (verif.rs); the harness does not call '
                   "dial(peer) when the peer's store holds an address of a transport that is not installed or one that does not name the peer "
                   "(reachable only through ill-formed dial results / raw inserts; the manager would wedge the peer in Opening, which is C05's "
@@ -69,14 +70,16 @@ ENTRY = {'coq_dir': 'C10',
                'arms extracted from address.rs: every failure kind maps to a strictly negative i32 (never mistaken for a rediscovery), AddressError '
                'is the only kind mapped to i32::MIN, the rest to CONNECTION_FAILURE; a failure of any kind / a success on a stored address of any '
                'score re-scores exactly that address (store level and whole-state frame: other peers, listen/public addresses, held connections '
-               'untouched); re-adding known addresses changes nothing; addresses(limit) is a non-increasing top-min(limit,n) selection and its '
-               'validator is sound and satisfiable; when dial(peer) tries addresses, the lists given to the transports merge into a valid '
-               'addresses(limit) selection with limit = max_outgoing_connections minus established outbound connections (everything when unlimited), '
-               'each address goes to the installed transport it is routed to, and the outcome re-scores exactly the attempts made (each failed one '
-               'to the score of its error kind, established score for the one that connected); public addresses always end in /p2p/<local> '
-               '(add/remove specified), the listen set holds each address with and without /p2p/<local>. The model is tied to '
-               'handle.rs/address.rs/mod.rs/limits.rs/listener.rs/addresses.rs/error.rs by a per-operation differential run with store dumps that '
-               'drives every constructible DialError variant through every failure path on addresses of every score class.',
+               'untouched); re-adding known addresses changes nothing and, while the additions fit under the bound, no addition of any addresses '
+               'changes any recorded score; dial_address on a stored address keeps the record and re-scores exactly it with the result of the dial '
+               '(failure of any kind or success), on a new address with room it is remembered with that score; addresses(limit) is a non-increasing '
+               'top-min(limit,n) selection and its validator is sound and satisfiable; when dial(peer) tries addresses, the lists given to the '
+               'transports merge into a valid addresses(limit) selection with limit = max_outgoing_connections minus established outbound '
+               'connections (everything when unlimited), each address goes to the installed transport it is routed to, and the outcome re-scores '
+               'exactly the attempts made (each failed one to the score of its error kind, established score for the one that connected); public '
+               'addresses always end in /p2p/<local> (add/remove specified), the listen set holds each address with and without /p2p/<local>. The '
+               'model is tied to handle.rs/address.rs/mod.rs/limits.rs/listener.rs/addresses.rs/error.rs by a per-operation differential run with '
+               'store dumps that drives every constructible DialError variant through every failure path on addresses of every score class.',
  'level_note': 'Trusted: Coq kernel, ExtrOcamlBasic extraction, harness and hooks (incl. the scripted transport), the regex translators; IP '
                'classification only on the mapped ranges; QUIC paths and NegotiationError::Quic proved on the model but not diffed (feature off); '
                'dial(peer) is not called on stores it could wedge on (guard, see trusted base). Observation (not judged a violation: dial_address is '
